@@ -46,6 +46,18 @@ func (set set) Build(ctx Context) (string, []any, error) {
 	return "(" + strings.Join(clauses, fmt.Sprintf(") %s (", set.operator)) + ")", args, nil
 }
 
+// MarshalJSON renders the set in the syntax ParseJSON accepts, so that a query carried by a pagination
+// cursor can be decoded again.
+func (set set) MarshalJSON() ([]byte, error) {
+	items := set.items
+	if items == nil {
+		items = make([]Builder, 0)
+	}
+	return json.Marshal(map[string]any{
+		"$" + set.operator: items,
+	})
+}
+
 type keyValue struct {
 	operator string
 	key      string
@@ -56,6 +68,14 @@ var _ Builder = (*keyValue)(nil)
 
 func (k keyValue) Build(ctx Context) (string, []any, error) {
 	return ctx.BuildMatcher(k.key, k.operator, k.value)
+}
+
+func (k keyValue) MarshalJSON() ([]byte, error) {
+	return json.Marshal(map[string]any{
+		k.operator: map[string]any{
+			k.key: k.value,
+		},
+	})
 }
 
 type not struct {
@@ -70,6 +90,12 @@ func (n not) Build(context Context) (string, []any, error) {
 		return "", nil, err
 	}
 	return fmt.Sprintf("not (%s)", sub), args, nil
+}
+
+func (n not) MarshalJSON() ([]byte, error) {
+	return json.Marshal(map[string]any{
+		"$not": n.expression,
+	})
 }
 
 func Not(expr Builder) not {
@@ -203,6 +229,17 @@ func mapMapToExpression(m map[string]any) (Builder, error) {
 			return nil, errors.Wrap(err, "parsing $and")
 		}
 		return and, nil
+	case "$not":
+		switch value := value.(type) {
+		case map[string]any:
+			sub, err := mapMapToExpression(value)
+			if err != nil {
+				return nil, errors.Wrap(err, "parsing $not")
+			}
+			return Not(sub), nil
+		default:
+			return nil, fmt.Errorf("unexpected type %T when decoding $not clause", value)
+		}
 	case "$match", "$gte", "$lte", "$gt", "$lt":
 		match, err := parseKeyValue(operator, value)
 		if err != nil {
